@@ -11,11 +11,11 @@ CONSTANTS
   MinT = 10
   Maint = 1000
   MaxDelay = 1
-  Quantum = 3
-  MaxTime = 30
+  Quantum = 4
+  MaxTime = 24
   Rule = "sum"
   Off = {}
-  Lim <- FaultStop
+  Lim <- QFault
 VIEW View
 INVARIANTS AtLeastOnce NoDuplicateWhenHealthy SilenceSurvivesRestart NoRepeatAfterRestart ReadyEventually Sane
 CHECK_DEADLOCK FALSE
